@@ -342,6 +342,7 @@ def run(ctx):
         'ASCII files; numbers within the binary64 normal range; pandas is an engine described by an executable contract (tokens, NA strings, column typing), inputs outside the contract are counted inconclusive',
         'np.linalg.inv / eig / svd (LAPACK) are not modelled: the relations cov*coi = I and cor = D^-1 cov D^-1 are checked on the outputs by exact rational arithmetic with a stated tolerance',
         'the .lst parser (results_file.py) is modelled for the fixed-format facts (C20/Lst.v: termination, covariance status, estimation time, method, version gate); parse_runtime (dates, total run time) and log_items are not; at run level covstatus is still an input of the model',
+        'the subproblem argument is modelled and tied for results._parse_phi only (C20/Sub.v, positional tables[k-1]); for the ext readers (_parse_ofv, _parse_parameter_estimates, _parse_table_numbers: filter on the title field Subproblem=) and for _parse_grd / _parse_ets it is not',
         'math.sqrt in triangular_root is a float engine: exact for every argument 2x < 2^52 and for every triangular number below 2^53 (checked in the tie); the model uses the integer square root',
     ]
     ctx.coverage['source_sha'] = source_sha('src/pharmpy/tools/external/nonmem/results_file.py',
